@@ -288,6 +288,26 @@ func c07One(sc *c07Scn, idx int) verdict {
 		}
 
 		opStarted = false
+	case "after-timeout-op":
+		// an operation ran into its timeout (the device had gone silent) and the device caught up afterwards; then the
+		// connection is closed: nothing the timed-out operation started is still around
+		s.pipe.Mark()
+		s.pipe.SetStall(0)
+		runOp()
+
+		select {
+		case <-opDone:
+		case <-time.After(5 * time.Second):
+			fail(&v, sigBase+":op-hang-before-close", "operation on a silent device did not run into its timeout")
+
+			return v
+		}
+
+		opStarted = false
+
+		s.pipe.SetStall(-1)
+		s.pipe.WaitDrained(time.Second)
+		time.Sleep(5 * time.Millisecond)
 	case "inflight":
 		s.pipe.Mark()
 		s.pipe.SetStall(0)
